@@ -50,10 +50,15 @@ Proof. unfold bt_ok. rewrite !andb_true_iff. tauto. Qed.
 
 Ltac wf_leaf :=
   cbn [fst snd];
-  first [ reflexivity | assumption
+  once (first [ reflexivity | assumption
         | apply wf_vstr; assumption | apply wf_vuuid; assumption | apply wf_vu32; assumption
-        | (cbn [wf]; first [apply wf_vstr | apply wf_vuuid]; assumption) ].
-Ltac wf_fields := apply wf_struct; [reflexivity|reflexivity|repeat (constructor; [split; wf_leaf|])]; try constructor.
+        | (cbn [wf]; first [apply wf_vstr | apply wf_vuuid]; assumption) ]).
+Ltac wf_forall leaf :=
+  lazymatch goal with
+  | |- Forall _ [] => apply Forall_nil
+  | |- Forall _ (_ :: _) => apply Forall_cons; [split; [leaf|leaf]|wf_forall leaf]
+  end.
+Ltac wf_fields := apply wf_struct; [reflexivity|reflexivity|wf_forall wf_leaf].
 
 Ltac split_ok H := unfold field_ok, variant_ok, func_ok, event_ok, fb_ok, doc_ok, ouuid_ok, ofb_ok in H;
   cbn [f_id f_name f_doc f_req f_ty v_id v_name v_doc v_ty fn_id fn_name fn_doc fn_args fn_ok fn_err
@@ -77,13 +82,13 @@ Proof. intros H. destruct m, k, f as [name [d|]]; unfold fb_ok, doc_ok in H; cbn
 
 Ltac wf_leaf2 :=
   cbn [fst snd];
-  first [ reflexivity | assumption
+  once (first [ reflexivity | assumption
         | apply wf_vstr; assumption | apply wf_vuuid; assumption | apply wf_vu32; assumption
         | (cbn [wf]; first [apply wf_vstr | apply wf_vuuid]; assumption)
         | (cbn [wf]; apply fallback_value_wf; assumption)
         | (eapply wf_vmap32; [eassumption|]; intros x; first [apply field_value_wf | apply variant_value_wf
-                                                          | apply func_value_wf | apply event_value_wf]) ].
-Ltac wf_fields2 := apply wf_struct; [reflexivity|reflexivity|repeat (constructor; [split; wf_leaf2|])]; try constructor.
+                                                          | apply func_value_wf | apply event_value_wf]) ]).
+Ltac wf_fields2 := apply wf_struct; [reflexivity|reflexivity|wf_forall wf_leaf2].
 
 Lemma builtin_value_wf m b : builtin_ok b = true -> wf true (builtin_value m b) = true.
 Proof.
